@@ -60,7 +60,8 @@ Record pstate := {
   p_completed : nat;           (* ctx.completed_scenarios *)
   p_behs : list suite_beh;     (* what Hypothesis will do in the coming suites *)
   p_pc : ppc;
-  p_bodies : list bool         (* step bodies executed, newest first: has_to_stop at that moment *)
+  p_bodies : list bool;        (* step bodies executed, newest first: has_to_stop at that moment *)
+  p_faults : list bool         (* fault injection: does ctx.maximize_metrics() raise in the next teardowns (one entry per teardown) *)
 }.
 
 Inductive plabel := LP | LStop.
@@ -70,12 +71,12 @@ Definition p_has_to_stop (s : pstate) : bool := p_stop s || p_limit s.
 Definition pset (s : pstate) (pc : ppc) : pstate :=
   {| p_out := p_out s; p_stop := p_stop s; p_limit := p_limit s; p_counter := p_counter s; p_suite := p_suite s;
      p_nsuites := p_nsuites s; p_scen := p_scen s; p_nscen := p_nscen s; p_cur := p_cur s; p_completed := p_completed s;
-     p_behs := p_behs s; p_pc := pc; p_bodies := p_bodies s |}.
+     p_behs := p_behs s; p_pc := pc; p_bodies := p_bodies s; p_faults := p_faults s |}.
 
 Definition pput (s : pstate) (e : pev) (pc : ppc) : pstate :=
   {| p_out := e :: p_out s; p_stop := p_stop s; p_limit := p_limit s; p_counter := p_counter s; p_suite := p_suite s;
      p_nsuites := p_nsuites s; p_scen := p_scen s; p_nscen := p_nscen s; p_cur := p_cur s; p_completed := p_completed s;
-     p_behs := p_behs s; p_pc := pc; p_bodies := p_bodies s |}.
+     p_behs := p_behs s; p_pc := pc; p_bodies := p_bodies s; p_faults := p_faults s |}.
 
 (* ExecutionControl.count_failure, n times *)
 Fixpoint count_failures (maxf : option nat) (n : nat) (counter : nat) (limit : bool) : nat * bool :=
@@ -99,27 +100,27 @@ Definition pstep (c : pcfg) (s : pstate) (l : plabel) : pstate :=
   | LStop =>
       {| p_out := p_out s; p_stop := true; p_limit := p_limit s; p_counter := p_counter s; p_suite := p_suite s;
          p_nsuites := p_nsuites s; p_scen := p_scen s; p_nscen := p_nscen s; p_cur := p_cur s; p_completed := p_completed s;
-         p_behs := p_behs s; p_pc := p_pc s; p_bodies := p_bodies s |}
+         p_behs := p_behs s; p_pc := p_pc s; p_bodies := p_bodies s; p_faults := p_faults s |}
   | LP =>
       match p_pc s with
       | PTop =>
           {| p_out := SuS (p_nsuites s) :: p_out s; p_stop := p_stop s; p_limit := p_limit s; p_counter := p_counter s;
              p_suite := p_nsuites s; p_nsuites := S (p_nsuites s); p_scen := p_scen s; p_nscen := p_nscen s; p_cur := p_cur s;
-             p_completed := p_completed s; p_behs := p_behs s; p_pc := PIntrCheck; p_bodies := p_bodies s |}
+             p_completed := p_completed s; p_behs := p_behs s; p_pc := PIntrCheck; p_bodies := p_bodies s; p_faults := p_faults s |}
       | PIntrCheck =>
           if p_stop s then pset s PEarlyIntr
           else
             let '(scs, e, rest) := match p_behs s with [] => ([], ROk, []) | (scs, e) :: rest => (scs, e, rest) end in
             {| p_out := p_out s; p_stop := p_stop s; p_limit := p_limit s; p_counter := p_counter s; p_suite := p_suite s;
                p_nsuites := p_nsuites s; p_scen := p_scen s; p_nscen := p_nscen s; p_cur := p_cur s; p_completed := p_completed s;
-               p_behs := rest; p_pc := PScen scs e; p_bodies := p_bodies s |}
+               p_behs := rest; p_pc := PScen scs e; p_bodies := p_bodies s; p_faults := p_faults s |}
       | PEarlyIntr => pput s PIntr PEarlyFin
       | PEarlyFin => pput s (SuF (p_suite s) INTERRUPTED) PDone
       | PScen [] e => pset s (PExcept (ByRun e))
       | PScen (steps :: scs) e =>
           {| p_out := ScS (p_nscen s) (p_suite s) :: p_out s; p_stop := p_stop s; p_limit := p_limit s; p_counter := p_counter s;
              p_suite := p_suite s; p_nsuites := p_nsuites s; p_scen := p_nscen s; p_nscen := S (p_nscen s); p_cur := p_cur s;
-             p_completed := p_completed s; p_behs := p_behs s; p_pc := next_step steps scs e; p_bodies := p_bodies s |}
+             p_completed := p_completed s; p_behs := p_behs s; p_pc := next_step steps scs e; p_bodies := p_bodies s; p_faults := p_faults s |}
       | PCheck st steps scs e =>
           if p_has_to_stop s then pset s (PTear TRaise) else pset s (PBody st steps scs e)
       | PBody st steps scs e =>
@@ -128,31 +129,35 @@ Definition pstep (c : pcfg) (s : pstate) (l : plabel) : pstate :=
           | StOk =>
               {| p_out := p_out s; p_stop := p_stop s; p_limit := p_limit s; p_counter := p_counter s; p_suite := p_suite s;
                  p_nsuites := p_nsuites s; p_scen := p_scen s; p_nscen := p_nscen s; p_cur := Some SUCCESS;
-                 p_completed := p_completed s; p_behs := p_behs s; p_pc := next_step steps scs e; p_bodies := bodies |}
+                 p_completed := p_completed s; p_behs := p_behs s; p_pc := next_step steps scs e; p_bodies := bodies; p_faults := p_faults s |}
           | StFail extra =>
               let '(cnt, lim) := count_failures (p_maxf c) (S extra) (p_counter s) (p_limit s) in
               {| p_out := p_out s; p_stop := p_stop s; p_limit := lim; p_counter := cnt; p_suite := p_suite s;
                  p_nsuites := p_nsuites s; p_scen := p_scen s; p_nscen := p_nscen s; p_cur := Some FAILURE;
-                 p_completed := p_completed s; p_behs := p_behs s; p_pc := PTear (TNext scs e); p_bodies := bodies |}
+                 p_completed := p_completed s; p_behs := p_behs s; p_pc := PTear (TNext scs e); p_bodies := bodies; p_faults := p_faults s |}
           | StErr =>
               {| p_out := p_out s; p_stop := p_stop s; p_limit := p_limit s; p_counter := p_counter s; p_suite := p_suite s;
                  p_nsuites := p_nsuites s; p_scen := p_scen s; p_nscen := p_nscen s; p_cur := Some ERROR;
-                 p_completed := p_completed s; p_behs := p_behs s; p_pc := PTear (TNext scs e); p_bodies := bodies |}
+                 p_completed := p_completed s; p_behs := p_behs s; p_pc := PTear (TNext scs e); p_bodies := bodies; p_faults := p_faults s |}
           | StKI =>
               {| p_out := p_out s; p_stop := p_stop s; p_limit := p_limit s; p_counter := p_counter s; p_suite := p_suite s;
                  p_nsuites := p_nsuites s; p_scen := p_scen s; p_nscen := p_nscen s; p_cur := Some INTERRUPTED;
-                 p_completed := p_completed s; p_behs := p_behs s; p_pc := PTear TRaise; p_bodies := bodies |}
+                 p_completed := p_completed s; p_behs := p_behs s; p_pc := PTear TRaise; p_bodies := bodies; p_faults := p_faults s |}
           end
       | PTear k =>
+          (* teardown: put ScenarioFinished FIRST, then ctx.maximize_metrics() - which may raise (fault injection; taken into
+             account only when no KeyboardInterrupt is in flight) and then skips ctx.reset_scenario() - then the base teardown *)
+          let fault := match k, p_faults s with TNext _ _, f :: _ => f | _, _ => false end in
           {| p_out := ScF (p_scen s) (p_suite s) (match p_cur s with Some st => st | None => SKIP end) :: p_out s;
              p_stop := p_stop s; p_limit := p_limit s; p_counter := p_counter s; p_suite := p_suite s;
-             p_nsuites := p_nsuites s; p_scen := p_scen s; p_nscen := p_nscen s; p_cur := None;
-             p_completed := S (p_completed s); p_behs := p_behs s;
-             p_pc := match k with TNext scs e => PScen scs e | TRaise => PExcept ByKI end; p_bodies := p_bodies s |}
+             p_nsuites := p_nsuites s; p_scen := p_scen s; p_nscen := p_nscen s; p_cur := if fault then p_cur s else None;
+             p_completed := if fault then p_completed s else S (p_completed s); p_behs := p_behs s;
+             p_pc := match k with TNext scs e => PScen scs e | TRaise => PExcept ByKI end; p_bodies := p_bodies s;
+             p_faults := tl (p_faults s) |}
       | PExcept ByKI =>
           {| p_out := p_out s; p_stop := true; p_limit := p_limit s; p_counter := p_counter s; p_suite := p_suite s;
              p_nsuites := p_nsuites s; p_scen := p_scen s; p_nscen := p_nscen s; p_cur := p_cur s; p_completed := p_completed s;
-             p_behs := p_behs s; p_pc := PPutIntr; p_bodies := p_bodies s |}
+             p_behs := p_behs s; p_pc := PPutIntr; p_bodies := p_bodies s; p_faults := p_faults s |}
       | PExcept (ByRun ROk) => pset s (PFinally SUCCESS false)
       | PExcept (ByRun RSkipTest) => pset s (PFinally SKIP false)
       | PExcept (ByRun RFailureGroup) => pset s (PFinally FAILURE (negb (p_limit s)))
@@ -168,14 +173,15 @@ Definition pstep (c : pcfg) (s : pstate) (l : plabel) : pstate :=
           {| p_out := SuF (p_suite s) st :: p_out s; p_stop := p_stop s; p_limit := p_limit s; p_counter := p_counter s;
              p_suite := p_suite s; p_nsuites := p_nsuites s; p_scen := p_scen s; p_nscen := p_nscen s; p_cur := None;
              p_completed := S (p_completed s); p_behs := p_behs s; p_pc := if again then PTop else PDone;
-             p_bodies := p_bodies s |}
+             p_bodies := p_bodies s; p_faults := p_faults s |}
       | PDone => s
       end
   end.
 
-Definition pinit (stop0 limit0 : bool) (counter0 : nat) (behs : list suite_beh) : pstate :=
+Definition pinit_f (faults : list bool) (stop0 limit0 : bool) (counter0 : nat) (behs : list suite_beh) : pstate :=
   {| p_out := []; p_stop := stop0; p_limit := limit0; p_counter := counter0; p_suite := 0; p_nsuites := 0; p_scen := 0;
-     p_nscen := 0; p_cur := None; p_completed := 0; p_behs := behs; p_pc := PTop; p_bodies := [] |}.
+     p_nscen := 0; p_cur := None; p_completed := 0; p_behs := behs; p_pc := PTop; p_bodies := []; p_faults := faults |}.
+Definition pinit := pinit_f [].
 
 Definition prun (c : pcfg) (ls : list plabel) (s : pstate) : pstate := fold_left (pstep c) ls s.
 
